@@ -110,3 +110,100 @@ def check_ctx_entry_points(R: Any, monitor: str, which: str) -> None:
             R.monitor(monitor, ok, where={"kind": "keyword-name-clash", "entry": f"ctx.{which}", "keyword": n}, detail=detail, case=case)
 
     asyncio.run(main())
+
+
+def injecting(kind: str, calls: list[Any]) -> tuple[Any, Any]:
+    """(callable, marker): a callable whose REAL call signature is (count) although introspection (`inspect.signature`, which follows
+    `__wrapped__` / `__signature__`) advertises (client, count): a `functools.wraps` decorator that supplies the first argument itself
+    (`@with_client`, `@inject`), in three flavours - sync function, async function, async generator function"""
+    import functools
+
+    marker = object()
+
+    def with_client(fn: Any) -> Any:
+        if kind == "agen":
+            @functools.wraps(fn)
+            def wrapper(count: int) -> Any:
+                return fn(marker, count)
+        elif kind == "async":
+            @functools.wraps(fn)
+            async def wrapper(count: int) -> Any:
+                return await fn(marker, count)
+        else:
+            @functools.wraps(fn)
+            def wrapper(count: int) -> Any:
+                return fn(marker, count)
+        return wrapper
+
+    if kind == "agen":
+        @with_client
+        async def items(client: Any, count: int) -> Any:
+            calls.append((client, count))
+            for i in range(count):
+                yield (client, i)
+        return items, marker
+    if kind == "async":
+        @with_client
+        async def fetch(client: Any, count: int) -> Any:
+            calls.append((client, count))
+            return (client, count)
+        return fetch, marker
+
+    @with_client
+    def compute(client: Any, count: int) -> Any:
+        calls.append((client, count))
+        return (client, count)
+    return compute, marker
+
+
+def check_injecting_ctx(R: Any, monitor: str, which: str) -> None:
+    """ctx.stream / ctx.spawn over callables whose advertised signature is not their real one: the arguments are the callable's business"""
+    import asyncio
+
+    from haiway import ctx
+
+    async def main() -> None:
+        for form in ("positional", "keyword"):
+            calls: list[Any] = []
+            fn, marker = injecting("agen" if which == "stream" else "async", calls)
+            case = {"injecting": which, "form": form}
+            try:
+                async with ctx.scope("injecting"):
+                    if which == "stream":
+                        got: Any = [item async for item in (ctx.stream(fn, 3) if form == "positional" else ctx.stream(fn, count=3))]
+                        ok = got == [(marker, 0), (marker, 1), (marker, 2)]
+                    else:
+                        got = await (ctx.spawn(fn, 3) if form == "positional" else ctx.spawn(fn, count=3))
+                        ok = got == (marker, 3)
+                detail = f"ctx.{which}(<functools.wraps decorator supplying the first argument>, {'3' if form == 'positional' else 'count=3'}) gave {got!r}"
+            except BaseException as exc:  # noqa: BLE001
+                ok, detail = False, f"ctx.{which}(<functools.wraps decorator supplying the first argument>, {'3' if form == 'positional' else 'count=3'}) raised {exc!r} - a valid call of that callable"
+            R.count("calls_of_callables_with_another_advertised_signature")
+            R.monitor(monitor, ok, where={"kind": "advertised-signature-trusted", "entry": f"ctx.{which}", "form": form}, detail=detail, case=case)
+
+    asyncio.run(main())
+
+
+def check_injecting(R: Any, monitor: str, wrappers: dict[str, tuple[Any, bool, bool]]) -> None:
+    """every helper decorator over such a callable: a call that is valid for the callable goes through"""
+    import asyncio
+
+    async def main() -> None:
+        for label, (decorate, is_async, _hashable) in wrappers.items():
+            for form in ("positional", "keyword"):
+                calls: list[Any] = []
+                fn, marker = injecting("async" if is_async else "sync", calls)
+                case = {"injecting": label, "form": form}
+                try:
+                    wrapped = decorate(fn)
+                    got = wrapped(3) if form == "positional" else wrapped(count=3)
+                    if asyncio.iscoroutine(got) or isinstance(got, asyncio.Future):
+                        got = await got
+                    ok = got == (marker, 3) and calls == [(marker, 3)]
+                    detail = f"{label} over a functools.wraps decorator that supplies the first argument: call ({'3' if form == 'positional' else 'count=3'}) gave {got!r}, the function saw {calls!r}"
+                except BaseException as exc:  # noqa: BLE001
+                    ok, detail = False, f"{label} over a functools.wraps decorator that supplies the first argument: the valid call ({'3' if form == 'positional' else 'count=3'}) raised {exc!r}"
+                R.count("calls_of_callables_with_another_advertised_signature")
+                R.monitor(monitor, ok, where={"kind": "advertised-signature-trusted", "wrapper": label, "form": form}, detail=detail, case=case)
+
+    asyncio.run(main())
